@@ -193,6 +193,34 @@ def c03_case(netlist, spec_feats=None, second_round=True, limit=CALL_LIMIT):
             d = ec.diff(ec.strip_order(ec.canon(n2, identifiers=True)), ec.strip_order(ec.canon(n3, identifiers=True)), limit=50)
             if d:
                 return _res('second-round-trip-differs', d[:6], 'unexplained'), info
+            # (6) history after writing: elements of the netlist that was just written (so it now carries the
+            #     identifiers and rename bookkeeping of that run) are renamed, and it is written and read again:
+            #     the file must show the names the netlist has NOW
+            renamed = []
+            for lib in netlist.libraries:
+                for dfn in lib.definitions:
+                    for grp in (dfn.ports, dfn.children, [c for c in dfn.cables if len(c.wires) == 1 and not c.is_array], [dfn]):
+                        for e in list(grp)[:1]:
+                            if isinstance(e.name, str) and e.name and len(renamed) < 4 and len(e.name) < 200:
+                                old_name = e.name
+                                try:
+                                    e.name = old_name + '_rn'
+                                    renamed.append(e)
+                                except Exception:  # noqa  (a sibling already has that name)
+                                    pass
+                    if len(renamed) >= 4:
+                        break
+            if renamed and not ec.expressible(netlist):
+                before2 = ec.canon(netlist)
+                try:
+                    with ec.time_limit(limit):
+                        path3, text3 = ec.compose_to_text(netlist, tmp, 'renamed.edf')
+                        n4 = sdn.parse(path3)
+                except Exception as e:
+                    return _res('round-trip-after-rename-fails', ['%s: %s' % (type(e).__name__, str(e)[:200])], 'unexplained'), info
+                d = ec.diff(ec.strip_order(before2), ec.strip_order(ec.canon(n4)), limit=100)
+                if d:
+                    return _res('round-trip-after-rename-differs', d[:6], explain_diff(d, feats) or 'unexplained'), info
     return None, info
 
 
